@@ -344,19 +344,19 @@ Print Assumptions C11_line_floats_call_order.
 (* once a float waits for the end of the line, every later float of the line waits too *)
 Theorem C11_line_floats_waiting_suffix room items :
   let st := C11Queue.run_line room items in
-  C11Queue.q_now st = seq 0 (length (C11Queue.q_now st)) /\
-  C11Queue.q_wait st = seq (length (C11Queue.q_now st)) (length (C11Queue.q_wait st)) /\
-  (length (C11Queue.q_now st) + length (C11Queue.q_wait st) = C11Queue.count_floats items)%nat.
+  C11Queue.q_now st = seq 0 (List.length (C11Queue.q_now st)) /\
+  C11Queue.q_wait st = seq (List.length (C11Queue.q_now st)) (List.length (C11Queue.q_wait st)) /\
+  (List.length (C11Queue.q_now st) + List.length (C11Queue.q_wait st) = C11Queue.count_floats items)%nat.
 Proof. exact (C11_queue.queue_waiting_is_a_suffix room items). Qed.
 Print Assumptions C11_line_floats_waiting_suffix.
 
 (* rule 5 (and 2, 3) for the floats of one line: placed in the order of the calls they are placed in source order,
    hence none above an earlier one, pairwise disjoint *)
 Theorem C11_line_floats_rule5 room items reqs d :
-  length reqs = C11Queue.count_floats items ->
+  List.length reqs = C11Queue.count_floats items ->
   Forall good_request reqs ->
   map (fun i => nth i reqs d) (C11Queue.call_order (C11Queue.run_line room items)) = reqs /\
   exists out, place_all [] (map (fun i => nth i reqs d) (C11Queue.call_order (C11Queue.run_line room items))) = Some out /\
-              length out = length reqs /\ pairwise_disjoint out /\ sorted_y out.
+              List.length out = List.length reqs /\ pairwise_disjoint out /\ sorted_y out.
 Proof. exact (C11_queue.line_floats_in_source_order room items reqs d). Qed.
 Print Assumptions C11_line_floats_rule5.
